@@ -24,7 +24,7 @@ STAGES = {
     "counts": {"counts", "turns", "loops"},
     "flow": {"tunnels", "threads"},
     "functions": {"functions"},
-    "more": {"choice_tags", "typed_vars", "if_diverts", "stitches", "cond_choices"},
+    "more": {"choice_tags", "typed_vars", "if_diverts", "stitches", "cond_choices", "externals"},
 }
 DEFAULT = set().union(*STAGES.values())
 
@@ -126,6 +126,12 @@ def save_view(save, flows):
         return None
 
 
+def ext_calls(rec):
+    """the calls of external functions the host received during this call of the engine: [f, args]"""
+    return [{"f": c["f"], "args": [value_json(a) or {"t": "other"} for a in c.get("args", [])]}
+            for c in (rec.get("cb") or []) if c.get("k") == "ext"]
+
+
 def cont_of(rec, flows=()):
     """one cont of the real engine, as a host sees it"""
     o = rec.get("obs") or {}
@@ -133,7 +139,8 @@ def cont_of(rec, flows=()):
     sv = save_view(o["save"], flows) if isinstance(o.get("save"), dict) and "flows" in o["save"] else None
     return {"text": chars(rec.get("val") or ""), "tags": [chars(x) for x in (o.get("tags") or [])], "can": bool(o.get("can")),
             "choices": [chars(c["text"]) for c in o.get("choices", [])], "vars": vs or {"_": {"t": "int", "v": 0}},
-            "err": rec.get("res") != "ok" or bool(o.get("errors")), "sv": sv if sv is not None else []}
+            "err": rec.get("res") != "ok" or bool(o.get("errors")), "sv": sv if sv is not None else [],
+            "calls": ext_calls(rec)}
 
 
 def value_json(v):
@@ -147,7 +154,8 @@ def value_json(v):
 def build_cases(progs, wd, depth, max_paths, per_prog, flavour="debug"):
     ps = [dict(id="ast-%d" % p["seed"], src=p["ink"], ast=p) for p in progs]
     exs, counts = common.explore(ps, wd, depth=depth, max_paths=max_paths, seed=7, fuel=20000,
-                                 obs={"save": True, "vars": True, "visits": True}, name="c01", flavour=flavour, turns=False)
+                                 obs={"save": True, "vars": True, "visits": True}, name="c01", flavour=flavour, turns=False,
+                                 prelude=lambda q: q["ast"].get("binds", []))
     cases, skipped = [], dict(counts)
     skipped["compile_error_list"] = []
     by_id = {e.prog["id"]: e for e in exs}
